@@ -42,7 +42,12 @@ def write_source(kind: str, table: dict, tmp: Path, row_group_size=None):
     if kind == "dataframe":
         import pandas as pd
 
-        return pd.DataFrame(cols)
+        df = pd.DataFrame(cols)
+        if table.get("index") is not None:
+            # non-default row labels (e.g. a frame that was filtered or shuffled before): rows are
+            # still to be taken by position
+            df.index = table["index"]
+        return df
     if kind == "fits":
         from astropy.table import Table
 
